@@ -132,12 +132,40 @@ Theorem C15_value_block_tail_statement : forall l ss last i,
   block_value (l ++ BTerm :: ss) = Null /\ block_value (l ++ BBlock :: ss) = Null.
 Proof. exact tail_statement_is_null. Qed.
 
+(* ---- statement sequences (Parser::parse at top level, Parser::block_statements in { }),
+   Model/BlockParse.v parse_sequence: for all item lists *)
+(* a doubled semicolon (`;;`, a blank line or comment line after an explicit `;`) changes nothing *)
+Theorem C15_sequence_double_semicolon : forall top l1 l2,
+  parse_sequence top (l1 ++ SSemi :: SSemi :: l2) = parse_sequence top (l1 ++ SSemi :: l2).
+Proof. exact seq_double_semi. Qed.
+
+(* a semicolon (or newline) before the closing `}` of a block, and one at the very beginning, change nothing *)
+Theorem C15_sequence_trailing_semicolon : forall l, parse_sequence false (l ++ [SSemi]) = parse_sequence false l.
+Proof. exact seq_trailing_semi. Qed.
+
+Theorem C15_sequence_leading_semicolon : forall top l, parse_sequence top (SSemi :: l) = parse_sequence top l.
+Proof. exact seq_leading_semi. Qed.
+
+(* an explicit semicolon added anywhere in an accepted text leaves it accepted with the same statements *)
+Theorem C15_sequence_insert_semicolon : forall top l1 l2 k,
+  parse_sequence top (l1 ++ l2) = Some k -> parse_sequence top (l1 ++ SSemi :: l2) = Some k.
+Proof. exact seq_insert_semi. Qed.
+
+(* after a statement that ends with its own `}` the separator is optional *)
+Theorem C15_sequence_semicolon_after_block : forall top l1 l2,
+  parse_sequence top (l1 ++ SBlock :: SSemi :: l2) = parse_sequence top (l1 ++ SBlock :: l2).
+Proof. exact seq_semi_after_block. Qed.
+
 Example C15_value_block_nonvacuous :
   block_value [BTerm; BSemi; BExpr TTilde; BSemi] = Value 0                       (* { let d = 1; ~5; } *)
   /\ block_value [BExpr TIdentifier; BSemi; BSemi; BExpr TLParen] = Value 1%nat
   /\ block_value [BExpr TInt; BSemi; BBlock] = Null                               (* { 7; while false { } } *)
   /\ block_value [BExpr TInt; BTerm] = ParseError                                 (* { 7 let d = 1 } *)
-  /\ block_state [BBlock; BExpr TInt; BSemi] None false 0 = Some (Some 0%nat, false, 1%nat).
+  /\ block_state [BBlock; BExpr TInt; BSemi] None false 0 = Some (Some 0%nat, false, 1%nat)
+  /\ parse_sequence true [STerm; SSemi; SBlock; STerm; SSemi] = Some 3%nat     (* let d = 1; while false { } g(1); *)
+  /\ parse_sequence false [STerm; STerm] = None                                  (* { g(1) let d = 1 } *)
+  /\ parse_sequence false [SBlock; STerm] = Some 2%nat                           (* { while false { } g(1) } *)
+  /\ parse_sequence true [STerm] = None.                                         (* cannot occur: the lexer adds `;` at the end *)
 Proof. vm_compute. repeat split; reflexivity. Qed.
 
 (* ---- integer literals *)
